@@ -1,11 +1,11 @@
 SPECIFICATION Spec
 CONSTANTS
-  Addrs = {"a1", "a2", "a3", "a4"}
+  Addrs = {"a1", "a2", "a3"}
   Caps = {0, 1, 2, 3}
   LiveLife = 3
   NonLiveLife = 2
-  MaxAge = 3
-  Steps = {1, 2}
+  MaxAge = 4
+  Steps = {1, 2, 3}
   KindRule = "own"
   Bug = "none"
 VIEW view
